@@ -1,4 +1,5 @@
 """C18 — Disk memoisation is transparent and crash-tolerant (DESIGN.md §4 C18)."""
+import warnings
 import os, sys, json, pickle, shutil, subprocess, tempfile, itertools, time, numpy
 from hypothesis import strategies as st
 from vlib.core import Sub, Violation, Discard, ROOT
@@ -505,10 +506,69 @@ def check_concurrent_recursion(case, rec):
     rec.nontrivial = True
 
 
+# ---- users of the cache: solver.System.solve / solve_constraints -----------------------------------------------------------------------------
+
+@st.composite
+def users_cases(draw, tier):
+    n = draw(st.integers(1, 3))
+    ops = [dict(trial=draw(st.sampled_from(['u', 'v', 'u,v', 'u', 'v'])), tol=draw(st.sampled_from([1e-10, 1e-8])), state=draw(st.sampled_from(['zero', 'zero', 'given'])),
+                what=draw(st.sampled_from(['solve', 'solve', 'solve_constraints'])), cons=draw(st.booleans())) for _ in range(draw(st.integers(2, 6)))]
+    return dict(n=n, A=[draw(st.sampled_from(V)) for _ in range(n * n)], k=draw(st.sampled_from([.5, 1., -.5])), f=[draw(st.sampled_from(V)) for _ in range(2 * n)], ops=ops)
+
+
+V = [-2., -1., -.5, .5, 1., 1.5, 3.]
+
+
+def check_users(case, rec):
+    """a sequence of solves of systems that share one functional but differ in the unknowns, the state or the tolerance, all in one cache
+    directory: every result (and its replayed log) equals the result of the same call without caching"""
+    import treelog
+    from nutils import function, solver, cache
+    n = case['n']
+    A = numpy.array(case['A']).reshape(n, n); A = A @ A.T + numpy.eye(n) * 2
+    f = numpy.array(case['f'])
+    u = function.Argument('u', (n,)); v = function.Argument('v', (n,))
+    J = .5 * (u[:, None] * function.Array.cast(A) * u[None, :]).sum(-1).sum(-1) + .5 * (v ** 2).sum() * 3 + case['k'] * (u * v).sum() - (f[:n] * u).sum() - (f[n:] * v).sum()
+    given = dict(u=numpy.arange(n) * .5 + 1, v=numpy.arange(n) * -.25 + 2)
+    def run(op):
+        S = solver.System(J, trial=op['trial'])
+        args = {} if op['state'] == 'zero' else dict(given)
+        for name in ('u', 'v'):
+            if name not in op['trial'].split(',') and name not in args: args[name] = numpy.zeros(n)
+        cons = {}
+        if op['cons']:
+            first = op['trial'].split(',')[0]
+            c = numpy.full(n, numpy.nan); c[0] = .5; cons = {first: c}
+        rl = treelog.RecordLog(simplify=False)
+        with treelog.set(rl):
+            if op['what'] == 'solve':
+                r = S.solve(arguments=args, constrain=cons, tol=op['tol'])
+            else:
+                r = S.solve_constraints(droptol=1e-10, arguments=args, constrain=cons)
+        return {k: numpy.asarray(x).tolist() for k, x in sorted(r.items())}, None
+    with warnings.catch_warnings():
+        warnings.simplefilter('ignore')
+        uncached = [run(op) for op in case['ops']]
+        d = tempfile.mkdtemp(prefix='c18u-')
+        try:
+            with cache.enable(d):
+                for rounds in range(2):      # the second round is served from the cache entirely
+                    for i, op in enumerate(case['ops']):
+                        got = run(op)
+                        if got[0] != uncached[i][0]:
+                            raise Violation('cached-result-differs', f'round {rounds} op {i} {op}: with caching {got[0]}, without {uncached[i][0]} (earlier ops {case["ops"][:i]})', where='users:value')
+        finally:
+            shutil.rmtree(d, ignore_errors=True)
+    trials = {op['trial'] for op in case['ops']}
+    rec.nontrivial = len(trials) >= 2
+    rec.label('users:ops=%d' % len(case['ops']), 'users:distinct-trials=%d' % len(trials))
+
+
 SUBS = [Sub('prefix', prefix_cases, check_prefix, {'quick': 40, 'thorough': 400}, weight=4, timeout=300),
         Sub('recursion', recursion_cases, check_recursion, {'quick': 150, 'thorough': 3000}, weight=2),
         Sub('concurrent', concurrent_cases, check_concurrent, {'quick': 2, 'thorough': 20}, weight=1, deterministic=False, shrink=False, timeout=300),
-        Sub('concurrent_recursion', concurrent_recursion_cases, check_concurrent_recursion, {'quick': 3, 'thorough': 30}, weight=1, deterministic=False, shrink=False, timeout=400)]
+        Sub('concurrent_recursion', concurrent_recursion_cases, check_concurrent_recursion, {'quick': 3, 'thorough': 30}, weight=1, deterministic=False, shrink=False, timeout=400),
+        Sub('users', users_cases, check_users, {'quick': 60, 'thorough': 1000}, weight=1, timeout=120)]
 
 TRIGGERS = {}
 
